@@ -245,7 +245,7 @@ PROPS = {
         assumptions=["WaitForVersionChange is excluded here (C07)", "no expiries in the concurrent runs (expiry is C06)", "Redis: each single command is atomic and EXEC after WATCH fails iff the key changed (miniredis / Redis semantics)"],
         trusted=["modelled, not verified: sync.Mutex (a critical section is atomic and lies between the call's invocation and response), go-redis, miniredis", "skeleton fact regenerated from inmem.go: every exported method except WaitForVersionChange is `s.lock.Lock(); defer s.lock.Unlock()`",
                  "the witness search (Go transcription of the contract) is untrusted: the Lean driver validates every witness"],
-        explanation="LinThm.order_is_sequential / order_respects_real_time (any object whose operations take effect in one atomic step is linearizable in step order) + C03 refinements + C02 contract facts for all histories (fresh_versions, cas_same_version_at_most_once, racing_creators_one_winner, loser_changes_nothing). For Redis: C02Redis.simulates / linearizable — the command-level concurrent model of redis.go (any number of clients, any interleaving of their commands, unboundedly many lost WATCH/EXEC races and Create retries) is a run of the atomic-step system over the TIMED contract (Kv.Spec x clock; a tick is an operation of a clock thread), hence linearizable with the contract's results, with expiries; exec_sees_what_get_saw (the WATCH invariant), lin_once, ret_is_lin_result; putmany_loop_entry / putmany_loop_is_puts / putmany_loop_run (a PutMany with an expiring record is a sequence of complete Puts, one per record, in order, under ANY interleaving: per-key effects), tick_only_outside_ttl_windows, expired_record_invisible_to_all_clients; the model is tied to redis.go + go-redis + miniredis by the command-level trace replay; free-running histories additionally get per-history Lean-validated witnesses",
+        explanation="LinThm.order_is_sequential / order_respects_real_time (any object whose operations take effect in one atomic step is linearizable in step order) + C03 refinements + C02 contract facts for all histories (fresh_versions, cas_same_version_at_most_once, racing_creators_one_winner, loser_changes_nothing). For Redis: C02Redis.simulates / linearizable — the command-level concurrent model of redis.go (any number of clients, any interleaving of their commands, unboundedly many lost WATCH/EXEC races and Create retries) is a run of the atomic-step system over the sequential Redis client model of C03 (Kv.Redis: server keys under rKey with TTL deadlines and the 1 ms clamp; a tick is an operation of a clock thread), hence linearizable with that model's results for ALL expiries and keys; linearizable_to_contract: where the linearized history satisfies C03's RedisOK the results are the contract's (Kv.Spec); past_expiry_visible_until_next_ms, boundary_instant, aliasing_keys_share_a_record; exec_sees_what_get_saw (the WATCH invariant), lin_once, ret_is_lin_result; putmany_loop_entry / putmany_loop_is_puts / putmany_loop_run (a PutMany with an expiring record is a sequence of complete Puts, one per record, in order, under ANY interleaving: per-key effects), tick_only_outside_ttl_windows, expired_record_invisible_to_all_clients; the model is tied to redis.go + go-redis + miniredis by the command-level trace replay; free-running histories additionally get per-history Lean-validated witnesses",
     ),
     "C07": dict(
         generated=True,   # lock-region fact regenerated from inmem.go: records / waiter table (and the helpers that assume the lock) only under the lock
